@@ -31,7 +31,7 @@ def streams_of(spec):
     return out
 
 
-def build_files(spec, carriers, cpu_lists, order=None):
+def build_files(spec, carriers, cpu_lists, order=None, only_cpu0=False):
     """carriers: {(loom,pid): {"app": set(tids), "rank": set(tids)}} ; cpu_lists: {(loom, tid): [(idx,phy)...] or None}
     Returns ordered list of (relpath, meta, events bytes)."""
     out = []
@@ -43,6 +43,8 @@ def build_files(spec, carriers, cpu_lists, order=None):
                             nranks=(p["nranks"] if (p["rank"] is not None and t in c["rank"]) else None))
         k = l["procs"].index(p) * 2 + p["threads"].index(t)
         cpu = -1 if k >= len(l["cpus"]) else k
+        if only_cpu0 and k > 0:
+            cpu = -1
         ev = obs.enc("OHx", 1000 + k, i32(cpu, t) + i64(0)) + obs.enc("OHe", 2000 + k)
         out.append((obs.relpath(l["name"], p["pid"], t), m, obs.HDR + ev))
     if order is not None:
@@ -179,6 +181,7 @@ def run(prop, tier):
 
         # ---- contradictions: each must give exit 1 with an error message (no signal, no success)
         conf = []
+        controls = []
         spec = system([[1, 0], [3, 2]])
         carriers0, cpus0 = canon(spec)
         allst = streams_of(spec)
@@ -210,6 +213,32 @@ def run(prop, tier):
                 c2 = copy.deepcopy(carriers0)
                 c2[(l["name"], p["pid"])]["app"] = set()
                 conf.append(("no-app_id@%s.%d" % (l["name"], p["pid"]), build_files(spec, c2, cpus0)))
+        # missing CPUs: the indices of a loom's CPUs leave a hole (n CPUs, index set != 0..n-1); every thread runs on index 0 or nowhere
+        for n in (2, 3, 4):
+            for S in itertools.combinations(range(n + 2), n):
+                if S == tuple(range(n)) or 0 not in S:
+                    continue
+                lst = [(ix, 20 + ix) for ix in S]
+                l = spec[1]
+                tids = [t for p in l["procs"] for t in p["threads"]]
+                for split in (None, 1, n - 1):
+                    cl = {k: v for k, v in cpus0.items() if k[0] != l["name"]}
+                    if split is None:
+                        cl[(l["name"], tids[0])] = lst
+                    else:
+                        cl[(l["name"], tids[0])] = lst[:split]
+                        cl[(l["name"], tids[-1])] = lst[split:][::-1]
+                    files = build_files(spec, carriers0, cl, only_cpu0=True)
+                    conf.append(("cpu-index-hole-%s-split%s@%s" % ("".join(map(str, S)), split, l["name"]), files))
+                    conf.append(("cpu-index-hole-%s-split%s@%s:rev" % ("".join(map(str, S)), split, l["name"]), files[::-1]))
+        # control for the family above: the same shape without a hole must be accepted
+        for n in (2, 3, 4):
+            l = spec[1]
+            tids = [t for p in l["procs"] for t in p["threads"]]
+            cl = {k: v for k, v in cpus0.items() if k[0] != l["name"]}
+            cl[(l["name"], tids[0])] = [(ix, 20 + ix) for ix in range(n)][:1]
+            cl[(l["name"], tids[-1])] = [(ix, 20 + ix) for ix in range(n)][1:][::-1]
+            controls.append(("cpu-index-full-%d" % n, build_files(spec, carriers0, cl, only_cpu0=True)))
         # ranks given to only some processes of a loom
         c2 = copy.deepcopy(carriers0)
         c2[("zeta", 100)]["rank"] = set()
@@ -228,13 +257,20 @@ def run(prop, tier):
                     label, rc, "" if haserr else " without message", " and 'finished ok'" if ok else "", tail[-160:]),
                     {"engine": "E6 real ovniemu", "contradiction": label, "streams": [(r, m) for (r, m, d) in files]},
                     {"kind": "conflict-not-refused", "what": label.split("@")[0]})
-        ctx.part("contradictions", cases=len(conf))
+        for (label, files), (rc, haserr, ok, tail) in zip(controls, pmap(one2, controls)):
+            ctx.add(evaluations=1, transitions=1)
+            if rc != 0 or not ok:
+                ctx.violation("control %s: consistent metadata refused (exit %r): %s" % (label, rc, tail[-160:]),
+                              {"engine": "E6 real ovniemu", "control": label, "streams": [(r, m) for (r, m, d) in files]},
+                              {"kind": "valid-refused"})
+        ctx.part("contradictions", cases=len(conf), controls=len(controls))
         ctx.sample({"variant": variants[5][1], "rank_config": rank_cfgs[variants[5][0]]})
         ctx.sample({"contradiction": conf[3][0]})
         ctx.cov["rule"] = ("2 looms x 2 processes x 2 threads x 2 CPUs, 4/27 rank configurations (thorough: every assignment of the ranks 0-3; incl. ranked and unranked looms mixed, rank order opposite "
                            "to name order): every distribution of app_id and rank over the non-empty thread subsets of each process, every covering family "
                            "of CPU sub-lists in every array order, stream creation orders; outputs must be byte-identical to the canonical distribution and "
-                           "rows equal the documented ordering. Every single contradiction at every stream, in both enumeration orders, must exit 1 with a message")
+                           "rows equal the documented ordering. Every single contradiction at every stream "
+                           "(incl. every CPU index set with a hole for 2-4 CPUs, carried by one or two threads), in both enumeration orders, must exit 1 with a message")
         ctx.cov["distinct_nontrivial"] = len(variants) + len(conf)
         return ctx.finish()
     finally:
